@@ -120,6 +120,68 @@ def make(n_sel):
     return factory
 
 
+# ---------------------------------------------------------------- glob selectors, token by token
+G_TOKENS = ["A", "B", "0", "1", "*", "?", "[AB]", "."]
+G_RULES = [("AA01", "A.A0", ("all", "A"), ()), ("AB01", "A.B1", ("all", "A"), ("B0",)), ("BB10", "B.A1", ("all",), ("L0",))]
+
+
+def g_registry():
+    reg = {}
+    for code, name, groups, aliases in G_RULES:
+        cls = type(f"Rule_{code}", (StubRule,), {"name": name})
+        reg[code] = RuleManifest(code, name, "desc", groups, aliases, cls)
+    return reg
+
+
+def g_expected(reg, sel, as_deny):
+    import fnmatch as fm
+    rm = ref_map(reg)
+    if sel in rm:
+        hit = set(rm[sel])
+    else:
+        hit = set()
+        for k in rm:
+            if fm.fnmatchcase(k, sel):
+                hit |= rm[k]
+    return sorted(cd for cd in reg if (cd not in hit if as_deny else cd in hit))
+
+
+def make_globs(n_tok):
+    def factory(excluded=frozenset()):
+        rb.rules_logger = NullLogger()
+
+        def harness(c):
+            n = int(fresh_int(c, "n_tokens", 1, n_tok))
+            sel = "".join(choose(c, f"g{i}", G_TOKENS) for i in range(n))
+            as_deny = bool(fresh_bool(c, "selector_is_exclusion"))
+            reg = g_registry()
+            rs = RuleSet("stub", config_info={})
+            rs._register = reg
+            pack = rs.get_rulepack(Cfg([] if as_deny else [sel], [sel] if as_deny else []))  # REAL
+            got = sorted(r.code for r in pack.rules)
+            exp = g_expected(reg, sel, as_deny)
+            if ("?" in sel or "[" in sel) and "*" in sel and len(exp) not in (0, 3):
+                c.witness("class_or_qmark_with_star_partial")
+            if "*" in sel and len(exp) not in (0, 3):
+                c.witness("star_partial")
+            return got == exp
+        return harness
+    return factory
+
+
+def replay_globs(cex):
+    n = int(cex.get("n_tokens", 1))
+    sel = "".join(G_TOKENS[int(cex.get(f"g{i}", 0))] for i in range(n))
+    as_deny = bool(cex.get("selector_is_exclusion"))
+    reg = g_registry()
+    rs = RuleSet("stub", config_info={})
+    rs._register = reg
+    got = sorted(r.code for r in rs.get_rulepack(Cfg([] if as_deny else [sel], [sel] if as_deny else [])).rules)
+    exp = g_expected(reg, sel, as_deny)
+    return None if got == exp else (f"{'exclude_rules' if as_deny else 'rules'}={sel!r} over rules {[(r[0], r[1], r[2], r[3]) for r in G_RULES]}: "
+                                    f"runs {got}, the glob matches {exp}")
+
+
 # ---------------------------------------------------------------- independence of rules in the lint loop
 
 def make_independence():
@@ -170,9 +232,59 @@ def units(tier, seed):
         outside=["FluffConfig._handle_comma_separated_values string splitting"],
         witnesses_required=["deny_used", "glob_used", "partial_selection"], sharded=True,
         timeout_s=300 if tier == "quick" else 1500) for n in ([1] if tier == "quick" else [1, 2])]
+    nt = 3 if tier == "quick" else 4
+    us.append(Unit(
+        name=f"c21.glob_selectors[<= {nt} tokens]", functions=["sqlfluff.core.rules.base.RuleSet._expand_rule_refs", "RuleSet.get_rulepack"],
+        bounds={"selector": f"1..{nt} tokens from {G_TOKENS}", "used as": "rules / exclude_rules", "rules": [r[0] + "/" + r[1] for r in G_RULES]},
+        make=make_globs(nt), replay=replay_globs,
+        stubs=["config -> stub with allow/deny lists", "rules -> stub classes"],
+        assumptions=["reference: fnmatch.fnmatchcase per reference-map key (the documented glob semantics)"],
+        witnesses_required=["class_or_qmark_with_star_partial", "star_partial"], sharded=True, timeout_s=600 if tier == "quick" else 2400))
     us.append(Unit(
         name="c21.rule_independence[3 rules]", functions=["sqlfluff.core.linter.linter.Linter.lint_fix_parsed (lint mode rule loop)"],
         bounds={"rules": 3, "enabled subsets": "all 8"}, make=make_independence(), replay="concrete",
         stubs=["crawlers -> recording stubs returning one violation each"],
         assumptions=["a crawl does not mutate the tree (not checked)"], witnesses_required=["two_rules"], sharded=False, timeout_s=120))
     return us
+
+
+# ---------------------------------------------------------------- selector strings -> selector lists (FluffConfig)
+
+SEL_TOKENS = ["LT01", "AM*", "core", ",", " ", "\n"]
+
+
+def make_comma(n_tokens):
+    def factory(excluded=frozenset()):
+        def harness(c):
+            from sqlfluff.core import FluffConfig
+            n = int(fresh_int(c, "n_tokens", 0, n_tokens))
+            raw = "".join(choose(c, f"t{i}", SEL_TOKENS) for i in range(n))
+            key = choose(c, "config_key", ["rules", "exclude_rules", "warnings", "ignore"])
+            other = choose(c, "other_value", [None, "AL01"])
+            overrides = {"dialect": "ansi", key: raw}
+            other_key = "exclude_rules" if key == "rules" else "rules"
+            if other:
+                overrides[other_key] = other
+            cfg = FluffConfig(overrides=overrides)  # REAL (runs _handle_comma_separated_values)
+            out_key = {"rules": "rule_allowlist", "exclude_rules": "rule_denylist"}.get(key, key)
+            exp = [p.strip() for p in raw.split(",") if p.strip()]
+            got = cfg.get(out_key)
+            other_out = {"rules": "rule_allowlist", "exclude_rules": "rule_denylist"}[other_key]
+            if len(exp) >= 2:
+                c.witness("several_selectors")
+            default_other = ["all"] if other_key == "rules" else []   # built-in defaults: rules = all, exclude_rules unset
+            return got == exp and cfg.get(other_out) == ([other] if other else default_other)
+        return harness
+    return factory
+
+
+_orig_units_c21 = units
+
+
+def units(tier, seed):  # noqa: F811
+    n = 4 if tier == "quick" else 5
+    return _orig_units_c21(tier, seed) + [Unit(
+        name=f"c21.selector_lists[<= {n} tokens]",
+        functions=["sqlfluff.core.config.fluffconfig.FluffConfig._handle_comma_separated_values", "sqlfluff.core.helpers.string.split_comma_separated_string"],
+        bounds={"selector string": f"every concatenation of <= {n} tokens from {SEL_TOKENS}", "keys": "rules / exclude_rules / warnings / ignore"},
+        make=make_comma(n), replay="concrete", witnesses_required=["several_selectors"], sharded=True, timeout_s=600 if tier == "quick" else 1800)]
